@@ -255,7 +255,237 @@ theorem locText_valid (fs : Int → Str) (t : Str) (l : Option Str) :
     simp only [hm]
     simp [skipWs]
 
+/-! ### object shapes with number members: NodeId and QualifiedName -/
+
+/-- what may follow a number inside an object: not a digit, not a fraction or exponent mark -/
+def EndsNumber (tail : Str) : Prop := ∀ c, tail.head? = some c → isDigitC c = false ∧ c ≠ '.' ∧ c ≠ 'e' ∧ c ≠ 'E'
+
+theorem endsNumber_comma (r : Str) : EndsNumber (',' :: r) := by
+  intro c h; simp at h; subst h; decide
+theorem endsNumber_brace (r : Str) : EndsNumber ('}' :: r) := by
+  intro c h; simp at h; subst h; decide
+
+theorem readNumber_nat_tail (n : Nat) (tail : Str) (ht : EndsNumber tail) :
+    readNumber (showNat n ++ tail) = some (showNat n, tail) := by
+  have hne := showNat_ne_nil n
+  have hsg : readSign (showNat n ++ tail) = ([], showNat n ++ tail) := by
+    cases hs : showNat n with
+    | nil => exact absurd hs hne
+    | cons x xs =>
+      have hx : x ≠ '-' := (showNat_digits n x (by rw [hs]; simp)).facts.2.2.2.1
+      simp only [List.cons_append]
+      unfold readSign
+      split
+      · next h => injection h with h1 _; exact absurd h1 hx
+      · rfl
+  have htd := takeDigits_showNat n tail (fun c hc => (ht c hc).1)
+  unfold readNumber
+  simp only [hsg, htd, hne, false_or, showNat_no_leading_zero n, if_false]
+  cases tail with
+  | nil => simp [readFrac, readExp]
+  | cons c r =>
+    obtain ⟨_, h1, h2, h3⟩ := ht c rfl
+    have hf : readFrac (c :: r) = some ([], c :: r) := by
+      unfold readFrac
+      split
+      · next h => injection h with hh _; exact absurd hh h1
+      · rfl
+    simp [hf, readExp, h2, h3]
+
+theorem readValue_nat (f n : Nat) (tail : Str) (ht : EndsNumber tail) :
+    readValue (f + 1) (showNat n ++ tail) = some (.num (showNat n), tail) := by
+  have hne := showNat_ne_nil n
+  have hnum := readNumber_nat_tail n tail ht
+  cases hs : showNat n with
+  | nil => exact absurd hs hne
+  | cons c cs =>
+    have hd : IsDigit c := showNat_digits n c (by rw [hs]; simp)
+    have h48 : 48 ≤ c.toNat := hd.1
+    have h57 : c.toNat ≤ 57 := hd.2
+    have hws : isJsWs c = false := by
+      simp only [isJsWs, Bool.or_eq_false_iff, beq_eq_false_iff_ne, ne_eq]
+      refine ⟨⟨⟨?_, ?_⟩, ?_⟩, ?_⟩ <;> (intro e; subst e; revert h48; decide)
+    have hc : c ≠ '"' ∧ c ≠ '[' ∧ c ≠ '{' := by
+      refine ⟨?_, ?_, ?_⟩ <;> (intro e; subst e; revert h48 h57; decide)
+    have hdc : isDigitC c = true := by simp [isDigitC, hd.1, hd.2]
+    rw [hs] at hnum
+    simp only [List.cons_append] at hnum ⊢
+    rw [readValue, skipWs_cons _ _ hws]
+    simp [hc.1, hc.2.1, hc.2.2, hdc, hnum]
+
+/-- one `"key":value` member followed by `tail`, for any value text that the value reader reads back -/
+theorem readMembers_member (f : Nat) (k vt tail : Str) (v : JsonV)
+    (hv : readValue (f + 1) (vt ++ tail) = some (v, tail))
+    (rest : List (Str × JsonV)) (after : Str)
+    (htail : (tail = '}' :: after ∧ rest = []) ∨
+             (∃ r4, tail = ',' :: r4 ∧ readMembers (f + 1) r4 = some (rest, after))) :
+    readMembers (f + 2) (pyJsonQuote k ++ ':' :: (vt ++ tail)) = some ((k, v) :: rest, after) := by
+  have e1 : pyJsonQuote k ++ ':' :: (vt ++ tail) = '"' :: (escBody k ++ '"' :: (':' :: (vt ++ tail))) := by
+    simp [pyJsonQuote]
+  rw [e1, readMembers, skipWs_cons _ _ (by decide)]
+  simp only [readBody_escBody]
+  rw [skipWs_cons _ _ (by decide)]
+  simp only [hv]
+  rcases htail with ⟨ht, hr⟩ | ⟨r4, ht, hm⟩
+  · subst ht; subst hr
+    rw [skipWs_cons _ _ (by decide)]
+    simp
+  · subst ht
+    rw [skipWs_cons _ _ (by decide)]
+    simp [hm]
+
+
+def kNamespace : Str := "Namespace".toList
+def kIdType : Str := "IdType".toList
+def kId : Str := "Id".toList
+
+theorem nsKey_eq : "\"Namespace\":".toList = pyJsonQuote kNamespace ++ [':'] := by decide
+theorem idTypeKey_eq : "\"IdType\":".toList = pyJsonQuote kIdType ++ [':'] := by decide
+theorem idKey_eq : "\"Id\":".toList = pyJsonQuote kId ++ [':'] := by decide
+theorem idKeyQ_eq : "\"Id\":\"".toList = pyJsonQuote kId ++ [':', '"'] := by decide
+
+/-- the object reader applied to `{` members: what `parseJson` does with an object text -/
+theorem parseJson_obj (body : Str) (ms : List (Str × JsonV)) (c : Char) (r : Str) (hb : body = c :: r) (hc : c = '"')
+    (hm : readMembers (body.length + 1) body = some (ms, [])) :
+    parseJson ('{' :: body) = some (.obj ms) := by
+  subst hc
+  unfold parseJson
+  simp only [List.length_cons]
+  rw [readValue, skipWs_cons _ _ (by decide)]
+  simp only [show ('{' : Char) ≠ '"' from by decide, show ('{' : Char) ≠ '[' from by decide, if_false, if_true]
+  rw [hb, skipWs_cons _ _ (by decide)]
+  rw [hb] at hm
+  simp only [List.length_cons] at hm
+  simp [hm, skipWs]
+
+
+theorem exists_fuel (m c : Nat) (h : c ≤ m) : ∃ n, m = n + c := ⟨m - c, by omega⟩
+
+/-- **numeric NodeIds have the right shape and lose nothing**: the encoding of `ns=<n>;i=<k>` is one JSON
+    object with the member `Id` holding exactly the digits of `k` as a number and, iff the namespace
+    index is not 0, a member `Namespace` holding exactly the digits of `n` -/
+theorem nodeId_numeric_valid (ns k : Nat) :
+    parseJson (nodeIdJson ⟨(ns : Int), .i, showNat k⟩) =
+      some (.obj ((if ns = 0 then [] else [(kNamespace, .num (showNat ns))]) ++ [(kId, .num (showNat k))])) := by
+  have hq : ∀ (key r : Str), pyJsonQuote key ++ r = '"' :: (escBody key ++ '"' :: r) := by intro key r; simp [pyJsonQuote]
+  by_cases h0 : ns = 0
+  · subst h0
+    have hshape : nodeIdJson ⟨((0 : Nat) : Int), .i, showNat k⟩ = '{' :: (pyJsonQuote kId ++ ':' :: (showNat k ++ ['}'])) := by
+      simp [nodeIdJson, idKey_eq]
+    rw [hshape]
+    refine parseJson_obj _ _ '"' _ (hq _ _) rfl ?_
+    obtain ⟨n, hn⟩ : ∃ n, (pyJsonQuote kId ++ ':' :: (showNat k ++ ['}'])).length + 1 = n + 2 := exists_fuel _ 2 (by simp; omega)
+    rw [hn]
+    simpa using readMembers_member n kId (showNat k) ['}'] (.num (showNat k)) (readValue_nat n k _ (endsNumber_brace _)) [] [] (Or.inl ⟨rfl, rfl⟩)
+  · have hshape : nodeIdJson ⟨(ns : Int), .i, showNat k⟩ =
+        '{' :: (pyJsonQuote kNamespace ++ ':' :: (showNat ns ++ (',' :: (pyJsonQuote kId ++ ':' :: (showNat k ++ ['}']))))) := by
+      have : ((ns : Int) = 0) = False := by simp [h0]
+      simp [nodeIdJson, idKey_eq, nsKey_eq, pyStrInt, h0]
+    rw [hshape]
+    refine parseJson_obj _ _ '"' _ (hq _ _) rfl ?_
+    obtain ⟨n, hn⟩ : ∃ n, (pyJsonQuote kNamespace ++ ':' :: (showNat ns ++ (',' :: (pyJsonQuote kId ++ ':' :: (showNat k ++ ['}']))))).length + 1 = n + 3 :=
+      exists_fuel _ 3 (by simp [pyJsonQuote]; omega)
+    rw [hn]
+    have hin := readMembers_member n kId (showNat k) ['}'] (.num (showNat k)) (readValue_nat n k _ (endsNumber_brace _)) [] [] (Or.inl ⟨rfl, rfl⟩)
+    have hm := readMembers_member (n + 1) kNamespace (showNat ns) (',' :: (pyJsonQuote kId ++ ':' :: (showNat k ++ ['}']))) (.num (showNat ns))
+      (readValue_nat (n + 1) ns _ (endsNumber_comma _)) [(kId, .num (showNat k))] [] (Or.inr ⟨_, rfl, hin⟩)
+    simpa [h0] using hm
+
+
+theorem idType_digit (ty : IdType) : [digitChar (idTypeInt ty)] = showNat (idTypeInt ty) := by
+  cases ty <;> (unfold showNat; simp [idTypeInt])
+
+/-- **string, GUID and opaque NodeIds** whose identifier needs no JSON escape (no quote, backslash or
+    control character — finding D-C10b is what happens otherwise): one JSON object with `IdType`, the
+    identifier as the string member `Id`, character for character, and `Namespace` iff it is not 0 -/
+theorem nodeId_text_valid (ns : Nat) (ty : IdType) (hty : ty ≠ .i) (ident : Str) (hid : escBody ident = ident) :
+    parseJson (nodeIdJson ⟨(ns : Int), ty, ident⟩) =
+      some (.obj ((if ns = 0 then [] else [(kNamespace, .num (showNat ns))]) ++
+        [(kIdType, .num (showNat (idTypeInt ty))), (kId, .str ident)])) := by
+  have hq : ∀ (key r : Str), pyJsonQuote key ++ r = '"' :: (escBody key ++ '"' :: r) := by intro key r; simp [pyJsonQuote]
+  have hidq : "\"Id\":\"".toList ++ ident ++ ['"'] = pyJsonQuote kId ++ ':' :: pyJsonQuote ident := by
+    rw [idKeyQ_eq]; simp [pyJsonQuote, hid]
+  -- the two members every such NodeId has
+  have htwo : ∀ n, readMembers (n + 3) (pyJsonQuote kIdType ++ ':' :: (showNat (idTypeInt ty) ++ (',' :: (pyJsonQuote kId ++ ':' :: (pyJsonQuote ident ++ ['}']))))) =
+      some ([(kIdType, .num (showNat (idTypeInt ty))), (kId, .str ident)], []) := by
+    intro n
+    have hin := readMembers_member n kId (pyJsonQuote ident) ['}'] (.str ident) (readValue_quote n ident _) [] [] (Or.inl ⟨rfl, rfl⟩)
+    exact readMembers_member (n + 1) kIdType (showNat (idTypeInt ty)) _ (.num (showNat (idTypeInt ty)))
+      (readValue_nat (n + 1) _ _ (endsNumber_comma _)) [(kId, .str ident)] [] (Or.inr ⟨_, rfl, hin⟩)
+  by_cases h0 : ns = 0
+  · subst h0
+    have hshape : nodeIdJson ⟨((0 : Nat) : Int), ty, ident⟩ =
+        '{' :: (pyJsonQuote kIdType ++ ':' :: (showNat (idTypeInt ty) ++ (',' :: (pyJsonQuote kId ++ ':' :: (pyJsonQuote ident ++ ['}']))))) := by
+      unfold nodeIdJson
+      simp only [hty, if_false, Int.natCast_zero, if_true, List.nil_append, hidq, idTypeKey_eq, idType_digit]
+      simp
+    rw [hshape]
+    refine parseJson_obj _ _ '"' _ (hq _ _) rfl ?_
+    obtain ⟨n, hn⟩ := exists_fuel ((pyJsonQuote kIdType ++ ':' :: (showNat (idTypeInt ty) ++ (',' :: (pyJsonQuote kId ++ ':' :: (pyJsonQuote ident ++ ['}']))))).length + 1) 3
+      (by simp [pyJsonQuote]; omega)
+    rw [hn]
+    simpa using htwo n
+  · have hshape : nodeIdJson ⟨(ns : Int), ty, ident⟩ =
+        '{' :: (pyJsonQuote kNamespace ++ ':' :: (showNat ns ++ (',' :: (pyJsonQuote kIdType ++ ':' :: (showNat (idTypeInt ty) ++ (',' :: (pyJsonQuote kId ++ ':' :: (pyJsonQuote ident ++ ['}']))))))))
+        := by
+      unfold nodeIdJson
+      have : ¬ ((ns : Int) = 0) := by simp [h0]
+      simp only [hty, if_false, this, hidq, idTypeKey_eq, idType_digit, nsKey_eq, pyStrInt]
+      simp
+    rw [hshape]
+    refine parseJson_obj _ _ '"' _ (hq _ _) rfl ?_
+    obtain ⟨n, hn⟩ := exists_fuel ((pyJsonQuote kNamespace ++ ':' :: (showNat ns ++ (',' :: (pyJsonQuote kIdType ++ ':' :: (showNat (idTypeInt ty) ++ (',' :: (pyJsonQuote kId ++ ':' :: (pyJsonQuote ident ++ ['}'])))))))).length + 1) 4
+      (by simp [pyJsonQuote]; omega)
+    rw [hn]
+    have hm := readMembers_member (n + 2) kNamespace (showNat ns) _ (.num (showNat ns))
+      (readValue_nat (n + 2) ns _ (endsNumber_comma _)) _ [] (Or.inr ⟨_, rfl, htwo n⟩)
+    simpa [h0] using hm
+
+
+def kName : Str := "Name".toList
+def kUri : Str := "Uri".toList
+theorem nameKeyQ_eq : "{\"Name\":\"".toList = '{' :: (pyJsonQuote kName ++ [':', '"']) := by decide
+theorem uriKey_eq : ",\"Uri\":".toList = ',' :: (pyJsonQuote kUri ++ [':']) := by decide
+
+/-- **QualifiedName** whose name needs no JSON escape: one object with the string member `Name`,
+    character for character, and the member `Uri` (the namespace index as a number) iff it is not 0 -/
+theorem qname_valid (fs : Int → Str) (ns : Nat) (name : Str) (hname : escBody name = name) :
+    ∃ j, jsonEncode fs (.qname ns name) = .ok (some j) ∧
+      parseJson j = some (.obj ((kName, .str name) :: (if ns = 0 then [] else [(kUri, .num (showNat ns))]))) := by
+  refine ⟨"{\"Name\":\"".toList ++ name ++ ['"'] ++ (if ns = 0 then [] else ",\"Uri\":".toList ++ showNat ns) ++ ['}'], by rw [jsonEncode], ?_⟩
+  have hq : ∀ (key r : Str), pyJsonQuote key ++ r = '"' :: (escBody key ++ '"' :: r) := by intro key r; simp [pyJsonQuote]
+  by_cases h0 : ns = 0
+  · subst h0
+    have hshape : "{\"Name\":\"".toList ++ name ++ ['"'] ++ (if (0 : Nat) = 0 then [] else ",\"Uri\":".toList ++ showNat 0) ++ ['}'] =
+        '{' :: (pyJsonQuote kName ++ ':' :: (pyJsonQuote name ++ ['}'])) := by
+      rw [nameKeyQ_eq]; simp [pyJsonQuote, hname]
+    rw [hshape]
+    refine parseJson_obj _ _ '"' _ (hq _ _) rfl ?_
+    obtain ⟨n, hn⟩ := exists_fuel ((pyJsonQuote kName ++ ':' :: (pyJsonQuote name ++ ['}'])).length + 1) 2 (by simp; omega)
+    rw [hn]
+    simpa using readMembers_member n kName (pyJsonQuote name) ['}'] (.str name) (readValue_quote n name _) [] [] (Or.inl ⟨rfl, rfl⟩)
+  · have hshape : "{\"Name\":\"".toList ++ name ++ ['"'] ++ (if ns = 0 then [] else ",\"Uri\":".toList ++ showNat ns) ++ ['}'] =
+        '{' :: (pyJsonQuote kName ++ ':' :: (pyJsonQuote name ++ (',' :: (pyJsonQuote kUri ++ ':' :: (showNat ns ++ ['}']))))) := by
+      rw [nameKeyQ_eq, uriKey_eq]; simp [pyJsonQuote, hname, h0]
+    rw [hshape]
+    refine parseJson_obj _ _ '"' _ (hq _ _) rfl ?_
+    obtain ⟨n, hn⟩ := exists_fuel ((pyJsonQuote kName ++ ':' :: (pyJsonQuote name ++ (',' :: (pyJsonQuote kUri ++ ':' :: (showNat ns ++ ['}']))))).length + 1) 3
+      (by simp [pyJsonQuote]; omega)
+    rw [hn]
+    have hin := readMembers_member n kUri (showNat ns) ['}'] (.num (showNat ns)) (readValue_nat n ns _ (endsNumber_brace _)) [] [] (Or.inl ⟨rfl, rfl⟩)
+    have hm := readMembers_member (n + 1) kName (pyJsonQuote name) _ (.str name) (readValue_quote (n + 1) name _) _ [] (Or.inr ⟨_, rfl, hin⟩)
+    simpa [h0] using hm
+
+
+theorem nodeId_encode (fs : Int → Str) (n : NodeId) : jsonEncode fs (.nodeId n) = .ok (some (nodeIdJson n)) := by rw [jsonEncode]
+
 /-! ### non-vacuity -/
+example : parseJson (nodeIdJson ⟨2, .s, "Pump 1".toList⟩) =
+    some (.obj [(kNamespace, .num ['2']), (kIdType, .num ['1']), (kId, .str "Pump 1".toList)]) := by
+  have := nodeId_text_valid 2 .s (by decide) "Pump 1".toList (by decide)
+  have d2 : digitChar 2 = '2' := by decide
+  have d1 : digitChar 1 = '1' := by decide
+  simpa [showNat, idTypeInt, d1, d2] using this
 example : parseJson (pyJsonQuote ['a', '"', '\\', '\n', Char.ofNat 1, 'é']) = some (.str ['a', '"', '\\', '\n', Char.ofNat 1, 'é']) :=
   string_valid _
 end Opcua.C10
